@@ -647,7 +647,7 @@ def check_c08_run(run, sc, stats):
     problems += check_final(run, sc)
     return problems
 
-def check_liveness(run, sc):
+def check_liveness(run, sc, faults=False):
     """C09: the run ended by itself, every invoked operation returned, close returned"""
     problems = []
     if run.stuck or run.rc == 3:
@@ -667,6 +667,6 @@ def check_liveness(run, sc):
         if not run.closed or (99, 0) not in run.ops or run.ops[(99, 0)].ret is None:
             problems.append({'kind': 'close-did-not-return'})
         for key, o in run.ops.items():
-            if o.kind() in ('put', 'del', 'batch', 'flush', 'backup') and o.res not in ('0', None):
+            if not faults and o.kind() in ('put', 'del', 'batch', 'flush', 'backup') and o.res not in ('0', None):
                 problems.append({'kind': 'api-error', 'op': o.text[:100], 'result': o.res})
     return problems
